@@ -126,7 +126,12 @@ func c11Script(r *vfRand, n int, many bool) []c11Step {
 		case x < 34:
 			out = append(out, c11Step{op: "opendir", path: "d"})
 		case x < 38:
-			out = append(out, c11Step{op: "opendir-fail", path: "nodir"})
+			if r.Bool() {
+				out = append(out, c11Step{op: "opendir-fail", path: "nodir"})
+			} else {
+				// OPENDIR of something that exists but is not a directory (os-backed server): refused, nothing stays open
+				out = append(out, c11Step{op: "opendir-file-fail", path: fmt.Sprintf("f%d", r.Intn(6))})
+			}
 		case x < 52:
 			out = append(out, c11Step{op: "close-live", arg: r.Intn(1 << 20)})
 		case x < 60:
@@ -195,7 +200,10 @@ func (x *c11Run_) pick(open bool, n int) *c11Handle {
 func (x *c11Run_) step(st c11Step) {
 	u, e := x.u, x.e
 	switch st.op {
-	case "open", "open-fail", "opendir", "opendir-fail":
+	case "open", "open-fail", "opendir", "opendir-fail", "opendir-file-fail":
+		if st.op == "opendir-file-fail" && e.kind != vfOS {
+			return
+		}
 		var p vfPkt
 		if strings.HasPrefix(st.op, "opendir") {
 			p = vfPkt{Type: rfOpendir, Path: e.p(st.path)}
